@@ -9,7 +9,7 @@ On break: harness `oracle` evaluates the property's clauses directly on the real
 """
 import os
 
-THEOREMS = ["IstioModel.C02.Theorems", "IstioModel.C02.QueueTheorems"]
+THEOREMS = ["IstioModel.C02.Theorems", "IstioModel.C02.QueueTheorems", "IstioModel.C02.QueueRefinement"]
 STREAMS = ("merge", "queue")
 
 
